@@ -804,4 +804,635 @@ theorem owed_init {s : HSt} (hwf : WF s) {c : Chan} {pe : Elt} {q' : PQ} {m : Ms
       · exact absurd h0 hnt
     · exact absurd h.1 hnt
 
+/-! ### promptness: the rank of a due message strictly decreases with every pass on its channel -/
+
+theorem passSt_q_cases {s : HSt} (hwf : WF s) {c : Chan} {pe : Elt} {q' : PQ} {m : Msg} (letters : List Byte) (f : Fault)
+    (hp : passStart s.clock true (s.q c) = some (pe, q')) (hm : s.find pe.id = some m) :
+    (passSt s c letters f).q c = q' ∨
+    ∃ x, (passSt s c letters f).q c = q'.insert { dt := x, id := pe.id } ∧
+      (x = nextretry s.clock m.birth c ∨ x = s.clock + SLEEP_SYSFAIL) := by
+  obtain ⟨_, _, _, _, _, _, _, m0, recs, hm0, hr⟩ := start_facts hwf hp
+  rw [hm] at hm0; cases hm0
+  by_cases hf : f.trouble = true
+  · right; rw [passSt_trouble letters hp hf, mkSt_q_same]; exact ⟨_, rfl, Or.inr rfl⟩
+  · have hf : f.trouble = false := by simpa using hf
+    rw [passSt_run letters hp hf hm hr, update_q, mkSt_q_same]
+    rcases passOut_chan s c letters f pe q' m recs _ rfl with ⟨_, h⟩ | ⟨_, x, h, hx⟩
+    · left; exact h
+    · right; exact ⟨x, h, hx⟩
+
+theorem update_msgs_mem (s : HSt) (m' x : Msg) (h : x ∈ (s.update m').msgs) : x = m' ∨ x ∈ s.msgs := by
+  unfold HSt.update at h
+  obtain ⟨y, hy, hxy⟩ := List.mem_map.mp h
+  by_cases hc : (y.id == m'.id) = true
+  · simp only [hc, if_true] at hxy; left; exact hxy.symm
+  · simp only [hc] at hxy; right; simp at hxy; rw [← hxy]; exact hy
+
+/-- a pass changes neither the clock nor the lifetime nor any birth time -/
+theorem passSt_frame {s : HSt} (hwf : WF s) (c : Chan) (letters : List Byte) (f : Fault) :
+    (passSt s c letters f).clock = s.clock ∧ (passSt s c letters f).lifetime = s.lifetime ∧
+    (∀ x ∈ (passSt s c letters f).msgs, ∃ y ∈ s.msgs, x.birth = y.birth) ∧
+    (∀ i m, s.find i = some m → ∃ m', (passSt s c letters f).find i = some m' ∧ m'.birth = m.birth) := by
+  cases hp : passStart s.clock true (s.q c) with
+  | none => rw [passSt_none letters f hp]; exact ⟨rfl, rfl, fun x hx => ⟨x, hx, rfl⟩, fun i m hm => ⟨m, hm, rfl⟩⟩
+  | some r =>
+    obtain ⟨pe, q'⟩ := r
+    obtain ⟨_, _, _, _, _, _, _, m, recs, hm, hr⟩ := start_facts hwf hp
+    by_cases hf : f.trouble = true
+    · rw [passSt_trouble letters hp hf]
+      exact ⟨by simp, by simp, fun x hx => ⟨x, by simpa using hx, rfl⟩, fun i m hm => ⟨m, by simpa using hm, rfl⟩⟩
+    · have hf : f.trouble = false := by simpa using hf
+      rw [passSt_run letters hp hf hm hr]
+      generalize passOut s c letters f pe q' m recs = o
+      have hmid : m.id = pe.id := (find_some hm).2
+      refine ⟨by simp, by simp, ?_, ?_⟩
+      · intro x hx
+        rcases update_msgs_mem _ _ _ hx with h | h
+        · exact ⟨m, (find_some hm).1, by rw [h, passMsg_birth]⟩
+        · exact ⟨x, by simpa using h, rfl⟩
+      · intro i m1 hm1
+        by_cases hi : i = pe.id
+        · subst hi
+          rw [hm] at hm1; cases hm1
+          refine ⟨passMsg m c o, ?_, passMsg_birth m c o⟩
+          have := find_update_self (mkSt s c o.close.chan o.close.done) (passMsg m c o) m
+            (by rw [passMsg_id, mkSt_find, hmid]; exact hm)
+          rw [passMsg_id, hmid] at this; exact this
+        · refine ⟨m1, ?_, rfl⟩
+          rw [find_update_other _ _ _ (by rw [passMsg_id, hmid]; exact hi), mkSt_find]; exact hm1
+
+theorem rank_passSt {s : HSt} (hwf : WF s) {c : Chan} {e : Elt} (he : e ∈ (s.q c).toList) (hdue : e.dt ≤ s.clock)
+    (hfut : ∀ m ∈ s.msgs, s.clock < nextretry s.clock m.birth c) (hsf : 0 < SLEEP_SYSFAIL)
+    (letters : List Byte) (f : Fault) :
+    ∃ pe, started s c = some pe ∧ pe.dt ≤ e.dt ∧
+      (pe = e ∨ (e ∈ ((passSt s c letters f).q c).toList ∧ rank (passSt s c letters f) c e.dt + 1 = rank s c e.dt)) := by
+  have hsome := passStart_prompt s.clock (s.q c) (hwf.heap c) e he hdue
+  cases hp : passStart s.clock true (s.q c) with
+  | none => rw [hp] at hsome; cases hsome
+  | some r =>
+    obtain ⟨pe, q'⟩ := r
+    obtain ⟨hpdue, hmin, hperm, hh', hmem, hnot, hnd, m, recs, hm, hr⟩ := start_facts hwf hp
+    refine ⟨pe, by unfold started; rw [hp]; rfl, hmin e he, ?_⟩
+    by_cases hpe : pe = e
+    · left; exact hpe
+    · right
+      have he' : e ∈ q'.toList := by
+        rcases List.mem_cons.mp ((hperm.mem_iff).mp he) with h | h
+        · exact absurd h.symm hpe
+        · exact h
+      have hold : rank s c e.dt = 1 + q'.toList.countP (fun x => decide (x.dt ≤ e.dt)) := by
+        unfold rank
+        rw [hperm.countP_eq, List.countP_cons]
+        have : decide (pe.dt ≤ e.dt) = true := by simpa using hmin e he
+        rw [this]; simp; omega
+      rcases passSt_q_cases hwf letters f hp hm with h | ⟨x, h, hx⟩
+      · refine ⟨by rw [h]; exact he', ?_⟩
+        unfold rank at hold ⊢; rw [h, hold]; omega
+      · refine ⟨by rw [h]; exact (mem_insert q' _ _ hh').mpr (Or.inr he'), ?_⟩
+        have hxl : e.dt < x := by
+          rcases hx with hx | hx
+          · have := hfut m (find_some hm).1; omega
+          · omega
+        unfold rank at hold ⊢
+        rw [h, hold, (insert_spec q' _ hh').2.countP_eq, List.countP_cons]
+        have : decide (x ≤ e.dt) = false := by simpa using hxl
+        simp only [this]; simp; omega
+
+theorem passes_shift (s : HSt) (c : Chan) (ls : Nat → List Byte) : ∀ n,
+    passes s c ls (n + 1) = passes (passSt s c (ls 0) .none) c (fun k => ls (k + 1)) n := by
+  intro n
+  induction n with
+  | zero => rfl
+  | succ n ih =>
+    show passSt (passes s c ls (n + 1)) c (ls (n + 1)) .none = passSt (passes (passSt s c (ls 0) .none) c (fun k => ls (k + 1)) n) c (ls (n + 1)) .none
+    rw [ih]
+
+theorem rank_pos {s : HSt} {c : Chan} {e : Elt} (he : e ∈ (s.q c).toList) : 0 < rank s c e.dt := by
+  unfold rank
+  exact List.countP_pos_iff.mpr ⟨e, he, by simp⟩
+
+theorem no_starvation (c : Chan) (e : Elt) (hsf : 0 < SLEEP_SYSFAIL) : ∀ (n : Nat) (s : HSt) (ls : Nat → List Byte),
+    WF s → e ∈ (s.q c).toList → e.dt ≤ s.clock →
+    (∀ m ∈ s.msgs, s.clock < nextretry s.clock m.birth c) → rank s c e.dt ≤ n →
+    ∃ j, j < n ∧ started (passes s c ls j) c = some e ∧ WF (passes s c ls j) ∧
+      (passes s c ls j).clock = s.clock ∧ (passes s c ls j).lifetime = s.lifetime ∧
+      ∀ i m, s.find i = some m → ∃ m', (passes s c ls j).find i = some m' ∧ m'.birth = m.birth := by
+  intro n
+  induction n with
+  | zero => intro s ls _ he _ _ hr; have := rank_pos he; omega
+  | succ n ih =>
+    intro s ls hwf he hdue hfut hr
+    obtain ⟨pe, hst, _, hcase⟩ := rank_passSt hwf he hdue hfut hsf (ls 0) .none
+    rcases hcase with hpe | ⟨he', hrank⟩
+    · subst hpe
+      exact ⟨0, by omega, hst, hwf, rfl, rfl, fun i m hm => ⟨m, hm, rfl⟩⟩
+    · obtain ⟨fc, fl, fm, ff⟩ := passSt_frame hwf c (ls 0) .none
+      have hwf' := wf_passSt hwf c (ls 0) .none
+      have hfut' : ∀ m ∈ (passSt s c (ls 0) .none).msgs,
+          (passSt s c (ls 0) .none).clock < nextretry (passSt s c (ls 0) .none).clock m.birth c := by
+        intro m hm
+        obtain ⟨y, hy, hb⟩ := fm m hm
+        rw [fc, hb]; exact hfut y hy
+      obtain ⟨j, hj, h1, h2, h3, h4, h5⟩ := ih (passSt s c (ls 0) .none) (fun k => ls (k + 1)) hwf' he' (by rw [fc]; exact hdue) hfut' (by omega)
+      refine ⟨j + 1, by omega, ?_⟩
+      rw [passes_shift]
+      refine ⟨h1, h2, h3.trans fc, h4.trans fl, ?_⟩
+      intro i m hm
+      obtain ⟨m1, hm1, hb1⟩ := ff i m hm
+      obtain ⟨m2, hm2, hb2⟩ := h5 i m1 hm1
+      exact ⟨m2, hm2, hb2.trans hb1⟩
+
+/-! ### the expiring pass -/
+
+theorem getD_kzd (letters : List Byte) (hl : lettersKZD letters) (i : Nat) :
+    letters.getD i 90 = 75 ∨ letters.getD i 90 = 90 ∨ letters.getD i 90 = 68 := by
+  rw [List.getD_eq_getElem?_getD]
+  cases h : letters[i]? with
+  | none => right; left; rfl
+  | some x => exact hl x (List.mem_of_getElem? h)
+
+theorem answer_dying (letters : List Byte) (hl : lettersKZD letters) :
+    ∀ recs k, ∀ b ∈ (answer true letters recs k).1, b = false := by
+  intro recs
+  induction recs with
+  | nil => intro k b hb; simp [answer] at hb
+  | cons x r ih =>
+    intro k b hb
+    cases x with
+    | false =>
+      simp only [answer] at hb
+      rcases List.mem_cons.mp hb with h | h
+      · exact h
+      · exact ih k b h
+    | true =>
+      simp only [answer] at hb
+      rcases List.mem_cons.mp hb with h | h
+      · rw [h]
+        rcases getD_kzd letters hl (k % letters.length) with h1 | h1 | h1 <;> rw [h1] <;> decide
+      · exact ih (k + 1) b h
+
+theorem filter_id_nil (l : List Bool) (h : ∀ b ∈ l, b = false) : (l.filter id).length = 0 := by
+  have : l.filter id = [] := by
+    apply List.filter_eq_nil_iff.mpr
+    intro a ha; rw [h a ha]; simp
+  rw [this]; rfl
+
+theorem expire_passSt {s : HSt} (hwf : WF s) {c : Chan} {pe : Elt} {q' : PQ} {m : Msg} (letters : List Byte) (f : Fault)
+    (hp : passStart s.clock true (s.q c) = some (pe, q')) (hm : s.find pe.id = some m)
+    (hold : s.clock > m.birth + s.lifetime) (hl : lettersKZD letters) (hf : f = .none ∨ f = .stat) :
+    ∃ m2, (passSt s c letters f).find pe.id = some m2 ∧ m2.recs c = none ∧ m2.recs (other c) = m.recs (other c) ∧
+      m2.birth = m.birth ∧ (passSt s c letters f).q c = q' ∧ pe.id ∉ ids q' ∧
+      (m.recs (other c) = none → pe.id ∈ ids (passSt s c letters f).done) := by
+  obtain ⟨_, _, _, _, _, hnot, _, m0, recs, hm0, hr⟩ := start_facts hwf hp
+  rw [hm] at hm0; cases hm0
+  have hmid : m.id = pe.id := (find_some hm).2
+  have hft : f.trouble = false := by rcases hf with h | h <;> rw [h] <;> rfl
+  have hul : decide (f ≠ Fault.unlink) = true := by rcases hf with h | h <;> rw [h] <;> decide
+  rw [passSt_run letters hp hft hm hr]
+  have hdy : (jobOpen s.clock s.lifetime m.birth c).dying = true := by simp [jobOpen]; omega
+  have hrecs : (passOut s c letters f pe q' m recs).recs' = (answer true letters recs 0).1 := by
+    show (answer (jobOpen s.clock s.lifetime m.birth c).dying letters recs 0).1 = _
+    rw [hdy]
+  have hnum : ((passOut s c letters f pe q' m recs).recs'.filter id).length = 0 := by
+    rw [hrecs]; exact filter_id_nil _ (answer_dying letters hl recs 0)
+  have hcl : (passOut s c letters f pe q' m recs).close =
+      jobCloseF (passOut s c letters f pe q' m recs).job pe.id true (((passOut s c letters f pe q' m recs).recs'.filter id).length)
+        (decide (f ≠ .unlink)) (if f = .stat then .err else statOf m (other c)) s.clock q' s.done := rfl
+  generalize passOut s c letters f pe q' m recs = o at hnum hcl ⊢
+  have hfind : ((mkSt s c o.close.chan o.close.done).update (passMsg m c o)).find pe.id = some (passMsg m c o) := by
+    have := find_update_self (mkSt s c o.close.chan o.close.done) (passMsg m c o) m
+      (by rw [passMsg_id, mkSt_find, hmid]; exact hm)
+    rw [passMsg_id, hmid] at this; exact this
+  rcases closeF_cases o.job pe.id ((o.recs'.filter id).length) (decide (f ≠ .unlink))
+      (if f = .stat then .err else statOf m (other c)) s.clock q' s.done with h | h
+  · rcases h.2.2 with ⟨h0, _⟩ | ⟨_, h0, _⟩
+    · exact absurd hnum h0
+    · rw [hul] at h0; cases h0
+  · obtain ⟨_, _, hrm, hch, hdn⟩ := h
+    rw [← hcl] at hrm hch hdn
+    refine ⟨passMsg m c o, hfind, by rw [passMsg_recs_same, hrm]; rfl, passMsg_recs_other _ _ _ _ (other_ne c),
+      passMsg_birth _ _ _, by rw [update_q, mkSt_q_same]; exact hch, hnot, ?_⟩
+    intro hoth
+    rw [update_done, mkSt_done]
+    rcases hdn with ⟨⟨t, ht⟩, _⟩ | ⟨_, hd⟩
+    · exfalso
+      rcases hf with h | h
+      · rw [h] at ht; simp [statOf, hoth] at ht
+      · rw [h] at ht; simp at ht
+    · rw [hd]
+      exact ((ids_insert _ _ hwf.heapDone).mem_iff).mpr (List.mem_cons_self ..)
+
+/-! ### nothing is lost -/
+
+theorem update_msgs_mem' (s : HSt) (m' x : Msg) (h : x ∈ (s.update m').msgs) : x = m' ∨ (x ∈ s.msgs ∧ x.id ≠ m'.id) := by
+  unfold HSt.update at h
+  obtain ⟨y, hy, hxy⟩ := List.mem_map.mp h
+  by_cases hc : (y.id == m'.id) = true
+  · simp only [hc, if_true] at hxy; left; exact hxy.symm
+  · simp only [hc] at hxy; right; simp at hxy; rw [← hxy]; exact ⟨hy, by simpa using hc⟩
+
+theorem passOut_removed (s : HSt) (c : Chan) (letters : List Byte) (f : Fault) (pe : Elt) (q' : PQ) (m : Msg) (recs : List Bool)
+    (o : PassOut) (ho : o = passOut s c letters f pe q' m recs) (hrm : o.close.removed = true) :
+    (∃ t, statOf m (other c) = .found t) ∨ o.close.done = s.done.insert { dt := s.clock, id := pe.id } := by
+  subst ho
+  generalize hoo : passOut s c letters f pe q' m recs = o at hrm ⊢
+  have hcl : o.close = jobCloseF o.job pe.id true ((o.recs'.filter id).length) (decide (f ≠ .unlink))
+      (if f = .stat then .err else statOf m (other c)) s.clock q' s.done := by rw [← hoo]; rfl
+  rw [hcl] at hrm ⊢
+  rcases closeF_cases o.job pe.id ((o.recs'.filter id).length) (decide (f ≠ .unlink))
+      (if f = .stat then .err else statOf m (other c)) s.clock q' s.done with h | h
+  · rw [h.1] at hrm; cases hrm
+  · rcases h.2.2.2.2 with ⟨⟨t, ht⟩, _⟩ | ⟨_, hd⟩
+    · left
+      by_cases hf : f = .stat
+      · simp [hf] at ht
+      · simp only [hf, if_false] at ht; exact ⟨t, ht⟩
+    · right; exact hd
+
+theorem isNone_of_two (m : Msg) (c : Chan) (h0 : m.recs0 = none) (h1 : m.recs1 = none) : m.recs c = none ∧ m.recs (other c) = none := by
+  cases c
+  · exact ⟨h0, h1⟩
+  · exact ⟨h1, h0⟩
+
+theorem two_of_none (m : Msg) (c : Chan) (h0 : m.recs c = none) (h1 : m.recs (other c) = none) : m.recs0 = none ∧ m.recs1 = none := by
+  cases c
+  · exact ⟨h0, h1⟩
+  · exact ⟨h1, h0⟩
+
+theorem tracked_passSt {s : HSt} (hwf : WF s) (ht : Tracked s) (c : Chan) (letters : List Byte) (f : Fault) :
+    Tracked (passSt s c letters f) := by
+  cases hp : passStart s.clock true (s.q c) with
+  | none => rw [passSt_none letters f hp]; exact ht
+  | some r =>
+    obtain ⟨pe, q'⟩ := r
+    obtain ⟨_, _, hperm, hh', hmem, hnot, hnd, m, recs, hm, hr⟩ := start_facts hwf hp
+    have hmid : m.id = pe.id := (find_some hm).2
+    have hidsperm : (ids (s.q c)).Perm (pe.id :: ids q') := by
+      have := hperm.map (fun e : Elt => e.id)
+      simpa [ids] using this
+    have hins : ∀ x i, i ∈ ids (s.q c) → i ∈ ids (q'.insert { dt := x, id := pe.id }) := by
+      intro x i hi
+      exact ((ids_insert q' _ hh').mem_iff).mpr ((hidsperm.mem_iff).mp hi)
+    by_cases hf : f.trouble = true
+    · rw [passSt_trouble letters hp hf]
+      intro x hx
+      rw [mkSt_msgs] at hx
+      obtain ⟨t1, t2⟩ := ht x hx
+      refine ⟨fun c' hr' => ?_, by rw [mkSt_done]; exact t2⟩
+      by_cases hc : c' = c
+      · subst hc; rw [mkSt_q_same]; exact hins _ _ (t1 c' hr')
+      · rw [mkSt_q_other _ _ _ _ _ hc]; exact t1 c' hr'
+    · have hf : f.trouble = false := by simpa using hf
+      rw [passSt_run letters hp hf hm hr]
+      have hchan := passOut_chan s c letters f pe q' m recs _ rfl
+      have hdone := passOut_done s c letters f pe q' m recs _ rfl
+      have hrem := passOut_removed s c letters f pe q' m recs _ rfl
+      generalize passOut s c letters f pe q' m recs = o at hchan hdone hrem ⊢
+      have hdsub : ∀ i, i ∈ ids s.done → i ∈ ids o.close.done := by
+        intro i hi
+        rcases hdone with h | h
+        · rw [h]; exact hi
+        · rw [h]; exact ((ids_insert _ _ hwf.heapDone).mem_iff).mpr (List.mem_cons_of_mem _ hi)
+      intro x hx
+      rcases update_msgs_mem' _ _ _ hx with hx | ⟨hx, hne⟩
+      · subst hx
+        rw [passMsg_id, hmid]
+        obtain ⟨t1, t2⟩ := ht m (find_some hm).1
+        refine ⟨fun c' hr' => ?_, fun h0 h1 => ?_⟩
+        · rw [update_q]
+          by_cases hc : c' = c
+          · subst hc
+            rw [mkSt_q_same]
+            rcases hchan with ⟨hrm, _⟩ | ⟨_, x, hcx, _⟩
+            · rw [passMsg_recs_same, hrm] at hr'; cases hr'
+            · rw [hcx]; exact ((ids_insert q' _ hh').mem_iff).mpr (List.mem_cons_self ..)
+          · rw [mkSt_q_other _ _ _ _ _ hc]
+            rw [passMsg_recs_other _ _ _ _ hc] at hr'
+            rw [← hmid]; exact t1 c' hr'
+        · rw [update_done, mkSt_done]
+          obtain ⟨n0, n1⟩ := isNone_of_two _ c h0 h1
+          rw [passMsg_recs_other _ _ _ _ (other_ne c)] at n1
+          rw [passMsg_recs_same] at n0
+          have hrm : o.close.removed = true := by
+            cases h : o.close.removed with
+            | true => rfl
+            | false => rw [h] at n0; cases n0
+          rcases hrem hrm with ⟨t, hst⟩ | hd
+          · simp [statOf, n1] at hst
+          · rw [hd]; exact ((ids_insert _ _ hwf.heapDone).mem_iff).mpr (List.mem_cons_self ..)
+      · rw [mkSt_msgs] at hx
+        rw [passMsg_id, hmid] at hne
+        obtain ⟨t1, t2⟩ := ht x hx
+        refine ⟨fun c' hr' => ?_, fun h0 h1 => by rw [update_done, mkSt_done]; exact hdsub _ (t2 h0 h1)⟩
+        rw [update_q]
+        by_cases hc : c' = c
+        · subst hc
+          rw [mkSt_q_same]
+          have hin : x.id ∈ ids q' := by
+            rcases List.mem_cons.mp ((hidsperm.mem_iff).mp (t1 c' hr')) with h | h
+            · exact absurd h hne
+            · exact h
+          rcases hchan with ⟨_, hcx⟩ | ⟨_, y, hcx, _⟩
+          · rw [hcx]; exact hin
+          · rw [hcx]; exact ((ids_insert q' _ hh').mem_iff).mpr (List.mem_cons_of_mem _ hin)
+        · rw [mkSt_q_other _ _ _ _ _ hc]; exact t1 c' hr'
+
+/-! ### ALRM and file creation -/
+
+def alrmSt (s : HSt) : HSt := { s with q0 := pqrun s.clock s.q0, q1 := pqrun s.clock s.q1 }
+
+theorem alrmSt_q (s : HSt) (c : Chan) : (alrmSt s).q c = pqrun s.clock (s.q c) := by cases c <;> rfl
+
+theorem ids_pqrun (t : Int) (q : PQ) : ids (pqrun t q) = ids q := by
+  unfold ids; rw [pqrun_toList, List.map_map]; rfl
+
+theorem wf_alrmSt {s : HSt} (hwf : WF s) : WF (alrmSt s) := by
+  refine ⟨fun c => by rw [alrmSt_q]; exact pqrun_heap _ _, hwf.heapDone, hwf.nodupMsgs,
+    fun c => by rw [alrmSt_q, ids_pqrun]; exact hwf.nodupQ c, fun c e he => ?_⟩
+  rw [alrmSt_q, pqrun_toList] at he
+  obtain ⟨x, hx, hxe⟩ := List.mem_map.mp he
+  have : e.id = x.id := by rw [← hxe]
+  rw [this]
+  exact hwf.hasFile c x hx
+
+theorem tracked_alrmSt {s : HSt} (ht : Tracked s) : Tracked (alrmSt s) := by
+  intro m hm
+  obtain ⟨t1, t2⟩ := ht m hm
+  exact ⟨fun c hr => by rw [alrmSt_q, ids_pqrun]; exact t1 c hr, t2⟩
+
+theorem find_none_notin {s : HSt} {i : Nat} (h : s.find i = none) : i ∉ s.msgs.map (·.id) := by
+  intro hin
+  obtain ⟨m, hm, hid⟩ := List.mem_map.mp hin
+  unfold HSt.find at h
+  have := List.find?_eq_none.mp h m hm
+  simp [hid] at this
+
+theorem mk_some {s : HSt} {id : Nat} {m : Msg} (c : Chan) (birth due : Int) (nrec : Nat) (h : s.find id = some m) :
+    (step s (.mk id c birth due nrec)).1 = s.update ((m.setRecs c (some (List.replicate nrec true))).setMt c due) := by
+  simp only [step, h]
+
+theorem mk_none {s : HSt} {id : Nat} (c : Chan) (birth due : Int) (nrec : Nat) (h : s.find id = none) :
+    (step s (.mk id c birth due nrec)).1 = { s with msgs := s.msgs ++
+      [(({ id := id, birth := birth } : Msg).setRecs c (some (List.replicate nrec true))).setMt c due] } := by
+  simp only [step, h]
+
+theorem wf_mk {s : HSt} (hwf : WF s) (id : Nat) (c : Chan) (birth due : Int) (nrec : Nat) :
+    WF (step s (.mk id c birth due nrec)).1 := by
+  cases hm : s.find id with
+  | some m =>
+    rw [mk_some c birth due nrec hm]
+    have hid : ((m.setRecs c (some (List.replicate nrec true))).setMt c due).id = id := by
+      rw [setMt_id, setRecs_id]; exact (find_some hm).2
+    refine wf_update hwf m _ (by rw [hid]; exact hm) ?_
+    intro c' hin
+    rw [hid] at hin
+    rw [setMt_recs]
+    by_cases hc : c' = c
+    · subst hc; rw [setRecs_same]; rfl
+    · rw [setRecs_other _ _ _ _ hc]
+      obtain ⟨e, he, hei⟩ := List.mem_map.mp hin
+      obtain ⟨m2, hm2, hr2⟩ := hwf.hasFile c' e he
+      rw [hei, hm] at hm2; cases hm2; exact hr2
+  | none =>
+    rw [mk_none c birth due nrec hm]
+    have hni := find_none_notin hm
+    refine ⟨fun c' => by cases c'; exact hwf.heap .loc; exact hwf.heap .rem, hwf.heapDone, ?_,
+      fun c' => by cases c'; exact hwf.nodupQ .loc; exact hwf.nodupQ .rem, ?_⟩
+    · simp only [List.map_append, List.map_cons, List.map_nil]
+      rw [List.nodup_append]
+      refine ⟨hwf.nodupMsgs, by simp, ?_⟩
+      intro a ha b hb
+      simp at hb
+      rw [hb]
+      intro h; exact hni (h ▸ ha)
+    · intro c' e he
+      have he' : e ∈ (s.q c').toList := by cases c'; exact he; exact he
+      obtain ⟨m2, hm2, hr2⟩ := hwf.hasFile c' e he'
+      refine ⟨m2, ?_, hr2⟩
+      unfold HSt.find at hm2 ⊢
+      simp only [List.find?_append, hm2, Option.some_or]
+
+/-! ### bounded time to expiry -/
+
+theorem passSt_find_back {s : HSt} (hwf : WF s) (c : Chan) (letters : List Byte) (f : Fault) (i : Nat) (m' : Msg)
+    (h : (passSt s c letters f).find i = some m') : ∃ m, s.find i = some m ∧ m'.birth = m.birth := by
+  cases hs : s.find i with
+  | some m =>
+    obtain ⟨m2, hm2, hb⟩ := (passSt_frame hwf c letters f).2.2.2 i m hs
+    rw [hm2] at h; cases h
+    exact ⟨m, rfl, hb⟩
+  | none =>
+    exfalso
+    have hmem := (find_some h)
+    -- ids are preserved by a pass
+    cases hp : passStart s.clock true (s.q c) with
+    | none => rw [passSt_none letters f hp] at h; rw [hs] at h; cases h
+    | some r =>
+      obtain ⟨pe, q'⟩ := r
+      obtain ⟨_, _, _, _, _, _, _, m, recs, hm, hr⟩ := start_facts hwf hp
+      by_cases hf : f.trouble = true
+      · rw [passSt_trouble letters hp hf, mkSt_find, hs] at h; cases h
+      · have hf : f.trouble = false := by simpa using hf
+        rw [passSt_run letters hp hf hm hr] at h
+        by_cases hi : i = pe.id
+        · rw [hi, hm] at hs; cases hs
+        · rw [find_update_other _ _ _ (by rw [passMsg_id, (find_some hm).2]; exact hi), mkSt_find, hs] at h; cases h
+
+theorem passSt_q_none {s : HSt} (hwf : WF s) {c : Chan} {pe : Elt} {q' : PQ} {m : Msg} (letters : List Byte)
+    (hp : passStart s.clock true (s.q c) = some (pe, q')) (hm : s.find pe.id = some m) :
+    (passSt s c letters .none).q c = q' ∨
+    (passSt s c letters .none).q c = q'.insert { dt := nextretry s.clock m.birth c, id := pe.id } := by
+  obtain ⟨_, _, _, _, _, _, _, m0, recs, hm0, hr⟩ := start_facts hwf hp
+  rw [hm] at hm0; cases hm0
+  rw [passSt_run letters hp rfl hm hr, update_q, mkSt_q_same]
+  have hcl : (passOut s c letters .none pe q' m recs).close =
+      jobCloseF (passOut s c letters .none pe q' m recs).job pe.id true (((passOut s c letters .none pe q' m recs).recs'.filter id).length)
+        true (statOf m (other c)) s.clock q' s.done := rfl
+  have hjob : (passOut s c letters .none pe q' m recs).job.retry = nextretry s.clock m.birth c := rfl
+  generalize passOut s c letters .none pe q' m recs = o at hcl hjob ⊢
+  rw [hcl]
+  rcases closeF_cases o.job pe.id ((o.recs'.filter id).length) true (statOf m (other c)) s.clock q' s.done with h | h
+  · rcases h.2.2 with ⟨_, h3⟩ | ⟨_, h0, _⟩
+    · right; rw [h3, hjob]
+    · cases h0
+  · left; exact h.2.2.2.1
+
+theorem dueby_passSt {s : HSt} (hwf : WF s) {L : Int} (hd : DueBy L s)
+    (hb : ∀ t b c, t ≤ b + s.lifetime → nextretry t b c ≤ expiryBound L b c)
+    (c : Chan) (letters : List Byte) (hl : lettersKZD letters) : DueBy L (passSt s c letters .none) := by
+  cases hp : passStart s.clock true (s.q c) with
+  | none => rw [passSt_none letters .none hp]; exact hd
+  | some r =>
+    obtain ⟨pe, q'⟩ := r
+    obtain ⟨_, _, hperm, hh', hmem, hnot, hnd, m, recs, hm, hr⟩ := start_facts hwf hp
+    have hclock := (passSt_frame hwf c letters .none).1
+    intro c' e he m' hm'
+    rw [hclock]
+    obtain ⟨m0, hm0, hb0⟩ := passSt_find_back hwf c letters .none e.id m' hm'
+    rw [hb0]
+    by_cases hc : c' = c
+    · subst hc
+      have hq : (passSt s c' letters .none).q c' = q' ∨
+          ((passSt s c' letters .none).q c' = q'.insert { dt := nextretry s.clock m.birth c', id := pe.id } ∧
+            s.clock ≤ m.birth + s.lifetime) := by
+        by_cases hdy : s.clock > m.birth + s.lifetime
+        · left; exact (expire_passSt hwf letters .none hp hm hdy hl (Or.inl rfl)).choose_spec.2.2.2.2.1
+        · rcases passSt_q_none hwf letters hp hm with h | h
+          · left; exact h
+          · right; exact ⟨h, by omega⟩
+      have hold : e ∈ q'.toList → e.dt ≤ expiryBound L m0.birth c' ∨ e.dt ≤ s.clock := by
+        intro heq
+        exact hd c' e ((hperm.mem_iff).mpr (List.mem_cons_of_mem _ heq)) m0 hm0
+      rcases hq with h | ⟨h, hnd'⟩
+      · rw [h] at he; exact hold he
+      · rw [h] at he
+        rcases (mem_insert q' _ e hh').mp he with he | he
+        · left
+          have hid : e.id = pe.id := by rw [he]
+          rw [hid, hm] at hm0; cases hm0
+          rw [he]; exact hb _ _ _ hnd'
+        · exact hold he
+    · have hq : (passSt s c letters .none).q c' = s.q c' := by
+        rw [passSt_run letters hp rfl hm hr, update_q, mkSt_q_other _ _ _ _ _ hc]
+      rw [hq] at he
+      exact hd c' e he m0 hm0
+
+theorem dueby_restart {s : HSt} (hwf : WF s) (ht : Tracked s) {L : Int} (hd : DueBy L s) : DueBy L (loadSt (finSt s)) := by
+  obtain ⟨_, _, _, hclk, _, _, hfind⟩ := finSt_spec hwf
+  have hwf' := wf_finSt hwf
+  intro c e he m1 hm1
+  obtain ⟨m', hm'mem, hfile, hee⟩ := (mem_loadSt_q _ c e).mp he
+  rw [loadSt_find] at hm1
+  have hfm : (finSt s).find m'.id = some m' := find_of_mem hwf'.nodupMsgs hm'mem
+  have hid : e.id = m'.id := by rw [hee]
+  rw [hid, hfm] at hm1
+  have h1 : m' = m1 := Option.some.inj hm1
+  subst h1
+  obtain ⟨g, hg, hgp⟩ := hfind m'.id
+  rw [hg] at hfm
+  cases hs : s.find m'.id with
+  | none => rw [hs] at hfm; cases hfm
+  | some m =>
+    rw [hs] at hfm
+    have hmm : m' = g m := (Option.some.inj hfm).symm
+    obtain ⟨g1, g2, g3, g4⟩ := hgp m
+    have hmid : m.id = m'.id := (find_some hs).2
+    have hfile' : (m.recs c).isSome = true := by rw [← g3 c, ← hmm]; exact hfile
+    have hin := (ht m (find_some hs).1).1 c hfile'
+    obtain ⟨e0, he0, he0id⟩ := List.mem_map.mp hin
+    have hmt := (g4 c).1 e0 he0 (by rw [he0id]; exact hmid)
+    have := hd c e0 he0 m (by rw [he0id, hmid]; exact hs)
+    show e.dt ≤ expiryBound L m'.birth c ∨ e.dt ≤ (finSt s).clock
+    rw [hclk, hee]
+    show m'.mt c ≤ _ ∨ m'.mt c ≤ _
+    rw [hmm, hmt, g2]; exact this
+
+theorem dueby_tick {s : HSt} {L : Int} (hd : DueBy L s) (d : Nat) : DueBy L { s with clock := s.clock + d } := by
+  intro c e he m hm
+  have he' : e ∈ (s.q c).toList := by cases c; exact he; exact he
+  rcases hd c e he' m hm with h | h
+  · left; exact h
+  · right; show e.dt ≤ s.clock + d; omega
+
+theorem dueby_alrm {s : HSt} {L : Int} : DueBy L (alrmSt s) := by
+  intro c e he m _
+  right
+  rw [alrmSt_q, pqrun_toList] at he
+  obtain ⟨x, _, hxe⟩ := List.mem_map.mp he
+  rw [← hxe]; exact Int.le_refl _
+
+
+def bstepSt (s : HSt) : BStep → HSt
+  | .tick d => { s with clock := s.clock + d }
+  | .wake => s
+  | .alrm => alrmSt s
+  | .pass c l => passSt s c l .none
+  | .restart => loadSt (finSt s)
+
+theorem run_bsteps (s : HSt) (x : BStep) : run s (x.steps s) = bstepSt s x := by cases x <;> rfl
+
+theorem tracked_tick {s : HSt} (ht : Tracked s) (t : Int) : Tracked { s with clock := t } := by
+  intro m hm
+  obtain ⟨t1, t2⟩ := ht m hm
+  exact ⟨fun c hr => by cases c; exact t1 .loc hr; exact t1 .rem hr, t2⟩
+
+theorem bstep_lifetime {s : HSt} (hwf : WF s) (x : BStep) : (bstepSt s x).lifetime = s.lifetime := by
+  cases x with
+  | tick d => rfl
+  | wake => rfl
+  | alrm => rfl
+  | pass c l => exact (passSt_frame hwf c l .none).2.1
+  | restart => exact (finSt_spec hwf).2.2.2.2.1
+
+theorem inv_bstep {s : HSt} {L : Int} (h : DInv L s)
+    (hb : ∀ t b c, t ≤ b + s.lifetime → nextretry t b c ≤ expiryBound L b c)
+    (x : BStep) (hx : ∀ c letters, x = .pass c letters → lettersKZD letters) : DInv L (bstepSt s x) := by
+  obtain ⟨hwf, ht, hd⟩ := h
+  cases x with
+  | tick d => exact ⟨wf_clock hwf _, tracked_tick ht _, dueby_tick hd d⟩
+  | wake => exact ⟨hwf, ht, hd⟩
+  | alrm => exact ⟨wf_alrmSt hwf, tracked_alrmSt ht, dueby_alrm⟩
+  | pass c l => exact ⟨wf_passSt hwf c l .none, tracked_passSt hwf ht c l .none, dueby_passSt hwf hd hb c l (hx c l rfl)⟩
+  | restart => exact ⟨wf_loadSt (wf_finSt hwf).nodupMsgs, tracked_loadSt _, dueby_restart hwf ht hd⟩
+
+theorem inv_runB {L : Int} : ∀ (l : List BStep) (s : HSt), DInv L s →
+    (∀ t b c, t ≤ b + s.lifetime → nextretry t b c ≤ expiryBound L b c) → allKZD l →
+    DInv L (runB s l) ∧ (runB s l).lifetime = s.lifetime := by
+  intro l
+  induction l with
+  | nil => intro s h _ _; exact ⟨h, rfl⟩
+  | cons x r ih =>
+    intro s h hb hk
+    show DInv L (runB (run s (x.steps s)) r) ∧ (runB (run s (x.steps s)) r).lifetime = s.lifetime
+    rw [run_bsteps]
+    have hl := bstep_lifetime h.1 x
+    have := ih (bstepSt s x) (inv_bstep h hb x (fun c letters hx => hk x (List.mem_cons_self ..) c letters hx))
+      (by rw [hl]; exact hb) (fun y hy => hk y (List.mem_cons_of_mem _ hy))
+    exact ⟨this.1, this.2.trans hl⟩
+
+/-! ### clean restart preserves the schedule -/
+
+theorem restart_mem {s : HSt} (hwf : WF s) (ht : Tracked s) (c : Chan) (e : Elt) :
+    e ∈ ((loadSt (finSt s)).q c).toList ↔ e ∈ (s.q c).toList := by
+  obtain ⟨_, _, _, _, _, _, hfind⟩ := finSt_spec hwf
+  have hwf' := wf_finSt hwf
+  constructor
+  · intro he
+    obtain ⟨m', hm'mem, hfile, hee⟩ := (mem_loadSt_q _ c e).mp he
+    have hfm : (finSt s).find m'.id = some m' := find_of_mem hwf'.nodupMsgs hm'mem
+    obtain ⟨g, hg, hgp⟩ := hfind m'.id
+    rw [hg] at hfm
+    cases hs : s.find m'.id with
+    | none => rw [hs] at hfm; cases hfm
+    | some m =>
+      rw [hs] at hfm
+      have hmm : m' = g m := (Option.some.inj hfm).symm
+      obtain ⟨g1, g2, g3, g4⟩ := hgp m
+      have hmid : m.id = m'.id := (find_some hs).2
+      have hfile' : (m.recs c).isSome = true := by rw [← g3 c, ← hmm]; exact hfile
+      have hin := (ht m (find_some hs).1).1 c hfile'
+      obtain ⟨e0, he0, he0id⟩ := List.mem_map.mp hin
+      have hmt := (g4 c).1 e0 he0 (by rw [he0id]; exact hmid)
+      have : e = e0 := by
+        rw [hee]
+        cases e0 with
+        | mk dt0 id0 =>
+          simp only at he0id hmt
+          rw [hmm] at *
+          simp only [Elt.mk.injEq]
+          exact ⟨hmt, by rw [he0id, g1]⟩
+      rw [this]; exact he0
+  · intro he
+    obtain ⟨m, hm, hfile⟩ := hwf.hasFile c e he
+    obtain ⟨g, hg, hgp⟩ := hfind e.id
+    obtain ⟨g1, g2, g3, g4⟩ := hgp m
+    have hfm : (finSt s).find e.id = some (g m) := by rw [hg, hm]; rfl
+    have hmt := (g4 c).1 e he rfl
+    refine (mem_loadSt_q _ c e).mpr ⟨g m, (find_some hfm).1, by rw [g3 c]; exact hfile, ?_⟩
+    cases e with
+    | mk dt0 id0 =>
+      simp only at hmt
+      simp only [Elt.mk.injEq]
+      exact ⟨hmt.symm, by rw [g1]; exact ((find_some hm).2).symm⟩
+
 end Nq.Lemmas.SchedHist
